@@ -441,4 +441,185 @@ theorem undeclared_prefix_op_rejected (s : Sheet) (sels : List SSel) (sel : SSel
     · exact ⟨_, rfl⟩
     · simp [hne, h2]
 
+
+/-! ## the serialised @namespace rules stay well-formed -/
+
+/-- every @namespace rule serialises to a well-formed rule for its own prefix and URI after every operation in
+which `rule.prefix = …` (directly or through the mapping interface) only hits rules whose seq starts with their
+prefix item — the guard that finding C15-prefix-setter-seq makes necessary.
+Full statement (FAILS, see `prefix_setter_seq_breaks`): without `hok`. -/
+theorem wf_step_partial (s : Sheet) (op : Op) (h : AllGoodNs s) (hok : SeqOk s op) : AllGoodNs (step s op).1 := by
+  cases op with
+  | parse init src => exact absurd hok (by simp [SeqOk])
+  | insNs p u idx io =>
+    simp only [step]
+    split
+    · exact h
+    · split
+      · exact h
+      · exact allGood_insertNs _ _ _ h (mkNs_good p u)
+  | insNsText p u c0 c1 c2 idx io =>
+    simp only [step]
+    split
+    · exact h
+    · split
+      · exact h
+      · exact allGood_insertNs _ _ _ h (mkNsText_good p u c0 c1 c2)
+  | setNs p u =>
+    simp only [step, setNs]
+    cases hf : findLastNs p s with
+    | none =>
+      simp only
+      split
+      · exact h
+      · exact allGood_insertNs _ _ _ h (mkNs_good p u)
+    | some x =>
+      obtain ⟨i, n⟩ := x
+      obtain ⟨p', rest, hseq⟩ := hok i n hf
+      obtain ⟨pre, post, rfl, rfl, hn⟩ := findLastNs_some hf
+      simp only
+      split
+      · exact h
+      · split
+        · rw [set_split]
+          exact allGood_set h (setPrefix_good (h n (by simp)) hseq)
+        · exact h
+  | delNs p =>
+    simp only [step, delNs]
+    cases hf : findLastNs p s with
+    | none => exact h
+    | some x =>
+      obtain ⟨i, n⟩ := x
+      simp only
+      cases hd : deleteRule s i with
+      | error e => exact h
+      | ok s' => exact allGood_sub h (deleteRule_sub hd)
+  | delRule i =>
+    simp only [step]
+    cases hd : deleteRule s i with
+    | error e => exact h
+    | ok s' => exact allGood_sub h (deleteRule_sub hd)
+  | setPrefix i q =>
+    simp only [step]
+    cases hi : s[i]? with
+    | none => exact h
+    | some r =>
+      cases r with
+      | ns n =>
+        obtain ⟨p', rest, hseq⟩ := hok n hi
+        obtain ⟨pre, post, rfl, rfl⟩ := split_at hi
+        simp only
+        rw [set_split]
+        exact allGood_set h (setPrefix_good (h n (by simp)) hseq)
+      | style x => exact h
+      | media x => exact h
+      | other x => exact h
+  | setSelText i sels =>
+    simp only [step]
+    cases hi : s[i]? with
+    | none => exact h
+    | some r =>
+      cases r with
+      | style old =>
+        obtain ⟨pre, post, rfl, rfl⟩ := split_at hi
+        simp only
+        split
+        · exact h
+        · cases hr : resolveSels (view (pre ++ Rule.style old :: post)) sels with
+          | error e => exact h
+          | ok x =>
+            simp only
+            rw [set_split]
+            intro n hn
+            simp only [List.mem_append, List.mem_cons] at hn
+            rcases hn with hn | hn | hn
+            · exact h n (by simp [hn])
+            · cases hn
+            · exact h n (by simp [hn])
+      | ns n => exact h
+      | media x => exact h
+      | other x => exact h
+  | insStyleText sels idx io =>
+    simp only [step]
+    split
+    · exact h
+    · split
+      · exact h
+      · cases hr : resolveSels (view s) sels with
+        | error e => exact h
+        | ok x => exact allGood_insertStyle _ _ h
+  | insStyleObj sels idx io => exact allGood_insertStyle _ _ h
+
+/-- what `AllGoodNs` means for the serialised text: the non-comment, non-empty items are `[prefix] URI` -/
+theorem good_rule_text (s : Sheet) (h : AllGoodNs s) (n : NsRule) (hn : Rule.ns n ∈ s) :
+    seqCore n.seq = (if n.pfx = [] then [] else [.pfx n.pfx]) ++ [.uri n.uri] := by
+  have := h n hn
+  simp only [NsRule.good, Bool.and_eq_true, NsRule.wf, decide_eq_true_eq] at this
+  exact this.1
+
+/-! ## the findings of known/C15.json on the model (each is a closed computation, checked by the kernel) -/
+
+/-- C15-insert-before-same-prefix: the call is rejected, yet the sheet has changed; the mapping now binds `p`
+to `u2` and the URI `u1`, still used by `p|a`, has no prefix (`|a` is written) -/
+theorem insert_before_same_prefix_breaks :
+    (step W.base (.insNs W.p W.u2 (some 0) false)).2 = .err .noModificationAllowedErr ∧
+    (step W.base (.insNs W.p W.u2 (some 0) false)).1 ≠ W.base ∧
+    view (step W.base (.insNs W.p W.u2 (some 0) false)).1 = [(W.p, W.u2)] ∧
+    usedUris (step W.base (.insNs W.p W.u2 (some 0) false)).1 = [W.u1] ∧
+    serItem (view (step W.base (.insNs W.p W.u2 (some 0) false)).1) (.q .typeSel (.uri W.u1) W.a) = bar ++ W.a := by
+  decide
+
+/-- C15-prefix-setter-collision: `rule.prefix = 'q'` on the rule of `u1` while `q` is bound to `u2` -/
+theorem prefix_setter_collision_breaks :
+    (step W.two (.setPrefix 0 W.q)).2 = .ok none ∧
+    nsPairs (step W.two (.setPrefix 0 W.q)).1 = [(W.q, W.u1), (W.q, W.u2)] ∧
+    view (step W.two (.setPrefix 0 W.q)).1 = [(W.q, W.u1)] ∧
+    usedUris (step W.two (.setPrefix 0 W.q)).1 = [W.u1, W.u2] := by
+  decide
+
+/-- C15-prefix-setter-seq: the URI item of a rule parsed from `@namespace "d";` is overwritten -/
+theorem prefix_setter_seq_breaks :
+    allWf W.dflt = true ∧
+    allWf (step W.dflt (.setPrefix 0 W.z)).1 = false ∧
+    allWf (step W.dflt (.setNs [] W.d)).1 = false := by
+  decide
+
+/-- C15-foreign-style-rule: a rule object whose selector refers to `u9` is accepted by a sheet that declares
+only `u1` -/
+theorem foreign_style_rule_breaks :
+    (step W.base (.insStyleObj [[.q .typeSel (.uri W.u9) W.a]] none true)).2 = .ok (some 2) ∧
+    usedUris (step W.base (.insStyleObj [[.q .typeSel (.uri W.u9) W.a]] none true)).1 = [W.u1, W.u9] ∧
+    nsUris (step W.base (.insStyleObj [[.q .typeSel (.uri W.u9) W.a]] none true)).1 = [W.u1] := by
+  decide
+
+/-- C15-tuple-namespaces and C15-namespace-after-variables: the prefix resolves, no rule declares the URI -/
+theorem parse_time_prefix_without_rule_breaks :
+    usedUris (step [] (.parse [(W.p, W.u)] [.style [[.q .typeSel (.named W.p) W.a]]])).1 = [W.u] ∧
+    nsUris (step [] (.parse [(W.p, W.u)] [.style [[.q .typeSel (.named W.p) W.a]]])).1 = [] ∧
+    usedUris (step [] (.parse [] [.other .variables, .ns W.p W.u false false false,
+      .style [[.q .typeSel (.named W.p) W.a]]])).1 = [W.u] ∧
+    nsUris (step [] (.parse [] [.other .variables, .ns W.p W.u false false false,
+      .style [[.q .typeSel (.named W.p) W.a]]])).1 = [] := by
+  decide
+
+/-- C15-star-uri: the namespace `*` used by `p|*` can be deleted -/
+theorem star_uri_breaks :
+    (step (step [] (.parse [] [.ns W.p star false false false, .style [[.q .universal (.named W.p) star]]])).1
+      (.delNs W.p)).2 = .ok none ∧
+    usedUris (step (step [] (.parse [] [.ns W.p star false false false,
+      .style [[.q .universal (.named W.p) star]]])).1 (.delNs W.p)).1 = [star] ∧
+    nsUris (step (step [] (.parse [] [.ns W.p star false false false,
+      .style [[.q .universal (.named W.p) star]]])).1 (.delNs W.p)).1 = [] := by
+  decide
+
+/-- non-vacuity of T15.2: the witness start sheets are consistent, and an admissible history exists
+(re-bind `u1` to `q`, then deleting `q` is rejected because `p|a` — now `q|a` — uses it) -/
+example : Good W.base ∧ Good W.two :=
+  ⟨⟨by decide, by decide, by decide, by decide⟩, ⟨by decide, by decide, by decide, by decide⟩⟩
+
+example : AllOk W.base [.setNs W.q W.u1, .delNs W.q] ∧
+    view (run W.base [.setNs W.q W.u1, .delNs W.q]) = [(W.q, W.u1)] ∧
+    (step (run W.base [.setNs W.q W.u1]) (.delNs W.q)).2 = .err .noModificationAllowedErr := by
+  refine ⟨⟨by show W.u1 ≠ star; decide, by decide, trivial, by decide, trivial⟩, by decide, by decide⟩
+
 end CssVerif.C15
